@@ -402,6 +402,17 @@ theorem aliasing_excluded (fmtReal : Nat → List Nat) (env : Env) (t s : Loc) (
     (step fmtReal (Op.appendArr t s) env).1 = env := by
   simp [step, source, h]
 
+/-- **container overloads have value semantics under aliasing**: assigning to a root, through the `const&`
+overload, a container owned by one of its own descendants (`doc = *doc["items"].GetArray()`) leaves the root equal
+to a copy of that container as it was — for every kind the root had before. -/
+theorem container_assign_from_own_member (fmtReal : Nat → List Nat) (env : Env) (r : Nat) (q : List Sel) (x : Doc)
+    (kind : Nat) (hr : r < env.length) (hx : getAt (envGet env r) q = some x) (hk : isContainerKind kind x = true) :
+    envGet (step fmtReal (Op.container ⟨r, []⟩ ⟨r, q⟩ kind false false) env).1 r = copyDoc x := by
+  have hset : envSet env r (envGet env r) = env := by
+    simp only [envSet, envGet, List.getElem?_eq_getElem hr]
+    exact List.set_getElem_self hr
+  simp [step, onTarget, updPath, hset, hx, hk, refUpd, envGet_envSet_same _ _ _ hr]
+
 /-! ## the invariant of every reachable state -/
 
 /-- **every forest an operation sequence reaches from undefined roots is well formed**: in every object,
